@@ -342,6 +342,18 @@ func c15Run(c *fw.Ctx, b fw.Batch) {
 		mimetype.VerifResetTree()
 	case "results":
 		seeds := lib.Seeds()
+		if b.Idx == 0 {
+			// every string / byte literal of the tree's source, alone and padded: a format
+			// the library registers is detected from its own signature literal
+			for _, lit := range lib.SourceDictionary() {
+				if len(lit) == 0 || len(lit) > 200 {
+					continue
+				}
+				c15CheckResult(c, t, "dictionary", lit, 0)
+				c15CheckResult(c, t, "dictionary", append(append([]byte{}, lit...), make([]byte, 600)...), 3072)
+				c.Count("source_literals_detected", 1)
+			}
+		}
 		for i := 0; i < b.N; i++ {
 			var in []byte
 			switch r.Intn(4) {
@@ -378,7 +390,7 @@ func init() {
 	fw.Register(&fw.Prop{
 		ID:    "C15",
 		Level: "exploration",
-		Rule: "exhaustive (format x registered name/alias) matrix undecorated, plus k random decorations per pair: upper / random letter case, surrounding space / TAB / CR / LF / FF / VT and Unicode white space U+0085 U+00A0 U+2003 U+3000 U+2028 (also between the subtype and ';'), 0-4 well-formed distinct parameters (tokens, quoted strings containing ; , = \\\" \\\\, RFC 2231 charset/language and continuation forms), a trailing ';'; unregistered look-alike names incl. media ranges (image/*, */*, text/*; q=0.8) and truncated names; EqualsAny over decorated pairs of registered names with decoys; every registered name and alias through Lookup(a).Is(a), including names and aliases registered at run time through Extend (half of them looked up, and not found, before their registration); detection results from seeds, hostile charset labels (incl. labels that contain '; charset=…'), generated HTML and text: d.Is(d.String()), EqualsAny(d.String(), d.String()), Lookup(bare type).Is(d.String()), and every ancestor of the result answers to all names and aliases of its format. " +
+		Rule: "exhaustive (format x registered name/alias) matrix undecorated, plus k random decorations per pair: upper / random letter case, surrounding space / TAB / CR / LF / FF / VT and Unicode white space U+0085 U+00A0 U+2003 U+3000 U+2028 (also between the subtype and ';'), 0-4 well-formed distinct parameters (tokens, quoted strings containing ; , = \\\" \\\\, RFC 2231 charset/language and continuation forms), a trailing ';'; unregistered look-alike names incl. media ranges (image/*, */*, text/*; q=0.8) and truncated names; EqualsAny over decorated pairs of registered names with decoys; every registered name and alias through Lookup(a).Is(a), including names and aliases registered at run time through Extend (half of them looked up, and not found, before their registration); detection results from seeds, every string / byte literal of the tree's source (alone and zero-padded), hostile charset labels (incl. labels that contain '; charset=…'), generated HTML and text: d.Is(d.String()), EqualsAny(d.String(), d.String()), Lookup(bare type).Is(d.String()), and every ancestor of the result answers to all names and aliases of its format. " +
 			"non-trivial = a pair where the helper must answer true (name or alias of the format) or a result whose String() carries a quoted / RFC 2231 parameter; distinct = distinct (format, name) pairs / names / result byte-class signatures.",
 		Assumptions: []string{
 			"well-formed parameters only (no malformed or duplicate parameter lists on the argument side)",
